@@ -74,6 +74,7 @@ Definition cut_sem (cid : Z) (old new : val) : bool :=
 (* ---------------------------------------------------------------- DSL *)
 (* side effects a user closure may perform when it runs *)
 Inductive effect :=
+  | EDropVar (x : vid)                (* the closure takes the program's handle of the variable and drops it *)
   | ESet (x : vid) (v : Z)            (* var.set(v) *)
   | ESetArg (x : vid)                 (* var.set(<first argument / delivered value>) *)
   | EUpdate (x : vid) (d : Z)         (* var.update(|v| v + d) *)
